@@ -247,7 +247,7 @@ pub fn run_batch(source: &mut dyn WorkSource, body: Body, max_steps: usize) {
 }
 
 pub fn default_body() -> Body {
-    Arc::new(|case, ctx| driver::run_case(case, ctx))
+    Arc::new(|case, ctx| if case.comp.is_some() { crate::comp::run_comp(case, ctx) } else { driver::run_case(case, ctx) })
 }
 
 struct OneShot {
